@@ -1026,18 +1026,25 @@ def run_correspondence(rep, spell_cases, decl_cases, ctx, workdir, fut_cases=())
             body = "Definition cases : list %s := %s.\n" % (ty, E.lst(["\n " + t for _, t, _ in chunk]))
             body += "Eval vm_compute in (indices_where %s cases 0).\n" % fn_m
             body += "Eval vm_compute in (indices_where %s cases 0).\n" % fn_u
+            if kind == "d":
+                body += "Eval vm_compute in (indices_where opt_spec_applies cases 0).\n"
+                body += "Eval vm_compute in (indices_where opt_spec_fails cases 0).\n"
             shards.append(body)
             index.append((kind, chunk))
     res = core.eval_cases(shards, "c13", HEADER % ctx.coq_env())
-    out = {"s": {"n": len(items), "mismatch": [], "unmodelled": 0}, "d": {"n": len(ditems), "mismatch": [], "unmodelled": 0},
+    out = {"s": {"n": len(items), "mismatch": [], "unmodelled": 0},
+           "d": {"n": len(ditems), "mismatch": [], "unmodelled": 0, "spec_applies": 0, "spec_fails": []},
            "f": {"n": len(fitems), "mismatch": [], "unmodelled": 0, "obs": fobs}}
     for (kind, chunk), (rc, so, se) in zip(index, res):
         vals = core.parse_eval(so)
-        if rc != 0 or len(vals) != 2:
+        if rc != 0 or len(vals) != (4 if kind == "d" else 2):
             raise RuntimeError("case shard failed to evaluate: %s" % (so + se)[-1500:])
         for i in core.parse_nat_list(vals[0]):
             out[kind]["mismatch"].append(chunk[i][2])
         out[kind]["unmodelled"] += len(core.parse_nat_list(vals[1]))
+        if kind == "d":
+            out["d"]["spec_applies"] += len(core.parse_nat_list(vals[2]))
+            out["d"]["spec_fails"] += [chunk[i][2] for i in core.parse_nat_list(vals[3])]
     return out, sobs, dobs
 
 
@@ -1145,6 +1152,22 @@ def run(rep, tier):
                                "%d cases, %d mismatches" % (r["s"]["n"], len(r["s"]["mismatch"])))
                 rep.obligation("correspondence:declaration", not r["d"]["mismatch"],
                                "%d cases, %d mismatches" % (r["d"]["n"], len(r["d"]["mismatch"])))
+                # spec clause of C13_optional_marking evaluated in Coq on the observed declarations
+                rep.count("spec:typing-optional-marking", r["d"]["spec_applies"])
+                for dc, o in r["d"]["spec_fails"]:
+                    want = not dc["opt"] and not any(a in (("none",), ("fcls", "NoneField")) or
+                                                     (a[0] == "inst" and a[1]["t"] == "none")
+                                                     for a in P.flat_leaves(dc["ty"]))
+                    rep.finding("C13/required/typing-optional/spec:%s" % union_stat(dc),
+                                "`%s`%s: observed %r; C13_optional_marking requires a field that is %s"
+                                % (decl_line("a", dc), " listed in _optional" if dc["opt"] else "", o,
+                                   "required" if want else "not required"),
+                                {"spec_decl": dc, "expect_required": want,
+                                 "python": P.MODULE_IMPORTS + "class A(Structure):\n" + "\n".join(
+                                     "    " + l for l in class_body(["a"], [dc])) + "\n"})
+                rep.obligation("spec-on-observed:typing-optional-marking", not r["d"]["spec_fails"],
+                               "%d declarations inside the domain of C13_optional_marking, %d failures"
+                               % (r["d"]["spec_applies"], len(r["d"]["spec_fails"])))
                 for o in r["f"]["obs"]:
                     rep.stat("future-declaration", "outcome:" + (o[0] if o[0] != "raise" else o[1]))
                 rep.cov["streams"].setdefault("future-declaration", {})["outside_model_skipped"] = r["f"]["unmodelled"]
@@ -1212,6 +1235,17 @@ def replay(obj):
     ctx = S.Context()
     workdir = core.workdir("c13replay")
     try:
+        if "spec_decl" in obj:
+            dc = obj["spec_decl"]
+            dc = dict(dc, ty=_tuplify(dc["ty"]), eq=_tuplify(dc["eq"]), kw=_tuplify(dc["kw"]))
+            m = load_module(workdir, class_src("A", ["a"], [dc]), ctx, False)
+            print("class A(Structure):" + "".join("\n    " + l for l in class_body(["a"], [dc])))
+            o = observe_decl(m.A)
+            unload(m)
+            want = obj["expect_required"]
+            print("required  : a field `a` that is %s" % ("required" if want else "not required"))
+            print("observed  :", o if o[0] != "field" else "field, %s" % ("required" if o[3] else "not required"))
+            return 0 if (o[0] == "field" and o[3] == want) else 1
         if "decls_a" not in obj:
             print("nothing to replay on the implementation:", obj.get("broken"), obj.get("detail", "")[:2000])
             for k in ("context", "spelling", "declaration", "observed"):
